@@ -68,3 +68,55 @@ def check(ctx):
     if ctx.cfg == "default":
         witness.run_witness(ctx, "c01_spawn", ctx.prog.extract_info["target"])
         witness.run_witness(ctx, "c01_spawn_static", ctx.prog.extract_info["target"])
+    worker_threads_rule(ctx)
+    shared.no_nested_run_under_guard(ctx)
+
+INF = "inf"
+def iter_len(f, o, depth=0):
+    """abstract length of an iterator expression: a frozenset of symbolic terms whose minimum is the length (INF dropped)"""
+    o = simplify(o)
+    if depth > 12: return frozenset(["?depth"])
+    if o[0] == "agg" and re.search(r"ops::(range::)?Range$", o[1] or ""):
+        s0 = simplify(o[3][0]); e = simplify(o[3][1])
+        if s0[0] == "const" and str(s0[2]) == "0": return frozenset([fmt_origin(e)])
+        return frozenset(["?range-start"])
+    if o[0] == "call":
+        t = f.term(o[1]); nm = (o[2] or "").rsplit("::", 1)[-1]
+        args = [trace_operand(f, a) for a in t["args"]]
+        if nm in ("into_iter", "iter", "iter_mut", "enumerate", "map", "by_ref", "inspect", "rev", "cloned", "copied", "peekable", "fuse") and args:
+            return iter_len(f, args[0], depth + 1)
+        if nm == "cycle": return frozenset([INF])
+        if nm == "zip" and len(args) == 2: return iter_len(f, args[0], depth + 1) | iter_len(f, args[1], depth + 1)
+        if nm == "take" and len(args) == 2: return iter_len(f, args[0], depth + 1) | frozenset([fmt_origin(simplify(args[1]))])
+        return frozenset([fmt_origin(o)])
+    if o[0] in ("ref", "deref"): return iter_len(f, o[1], depth + 1)
+    return frozenset([fmt_origin(o)])
+
+def worker_threads_rule(ctx):
+    """(seed C01-4) Scheduler::new(workers) builds `workers` run queues and schedule_global round-robins over all of them, but only
+    worker thread i drains global queue i: init_scheduler must start exactly one worker thread per queue."""
+    IS = "may::scheduler::init_scheduler"; inst = "workers/one-thread-per-queue"
+    f = ctx.fn("R-NUM", IS, inst)
+    if f is None: return
+    an = ctx.an
+    news = sorted(an.sites(f, Call(r"may::scheduler::Scheduler::new", transitive=False), "must"))
+    spawns = [s for s in sorted(an.sites(f, Call(r"std::thread::(spawn|Builder::spawn)", transitive=False), "must"))
+              if s in an.reach(f, an.after(f, s))]       # the spawn sits in a loop
+    if not news or not spawns:
+        ctx.missing("R-NUM", IS, inst, "Scheduler::new sites=%d, thread::spawn sites inside a loop=%d" % (len(news), len(spawns))); return
+    W = fmt_origin(simplify(trace_operand(f, f.node(news[0])["args"][0])))
+    bad = None; seen = None
+    for s in spawns:
+        nx = [p for p in f.points() if f.is_term(p) and f.node(p)["t"] == "call" and (callee_name(f.node(p)) or "").endswith("::next") and s in an.reach(f, an.after(f, p))
+              and p in an.reach(f, an.after(f, s))]
+        if len(nx) != 1:
+            bad = (s, "the loop around thread::spawn is not driven by exactly one Iterator::next (found %d): the number of worker threads is not decided" % len(nx)); break
+        recv = simplify(trace_operand(f, f.node(nx[0])["args"][0]))
+        while recv[0] in ("ref", "deref"): recv = simplify(recv[1])
+        ln = iter_len(f, recv) - frozenset([INF])
+        seen = sorted(ln)
+        if ln != frozenset([W]):
+            bad = (s, "the loop that starts the worker threads runs min(%s) times, Scheduler::new was given %s" % (", ".join(sorted(ln)) or "inf", W)); break
+    ctx.ob("R-NUM", IS, inst, bad is None,
+           "init_scheduler starts exactly `%s` worker threads, the number of queues given to Scheduler::new" % W if bad is None else
+           "%s: a worker id without a thread has a global queue that nobody drains - coroutines routed to it never run" % bad[1], f.where(bad[0] if bad else spawns[0]))
